@@ -136,6 +136,40 @@ Definition c08_check (c : c08case) : bool :=
         negb (filter_raises es) && match_descs es (children m) ds && len_matches m len
       end).
 
+(* The same checker for the code AFTER the repair of finding F28 (Segment.length =
+   reduce(torch.add, lengths, torch.tensor(0.0)): the empty sum is 0).  Lengths are total --
+   of an empty segment, of a segment holding an empty sub-segment, of the empty result of a
+   filter that removed every element -- so nothing raises any more: every transformation must
+   have returned, and every observed length must be the model's sum.  [c08_check] above stays
+   the model of the code before the repair; the harness selects the variant by the status of
+   F28 in known_findings.json. *)
+Definition len_matches_total (e : zelem) (l : option Z) : bool :=
+  match l with Some x => zelen e =? x | None => false end.
+
+Definition c08_check_len_total (c : c08case) : bool :=
+  let t := k_tree c in let es := children t in let b := k_in c in let ex := k_ex c in
+  (match k_merged c with
+   | None => false
+   | Some (ds, out, len) =>
+     let m := ztransfer_maps_merged t b ex in
+     match_descs es (children m) ds && zbeam_eqb (ztrack m b) out && len_matches_total m len
+   end)
+  && (let '(ds, out, len) := k_markers c in
+      let m := Seg (zename t) (zmarkers_removed ex es) in
+      match_descs es (children m) ds && zbeam_eqb (ztrack m b) out && len_matches_total m len)
+  && (match k_zero c with
+      | None => false
+      | Some (ds, out, len) =>
+        let m := Seg (zename t) (zzero_removed ex es) in
+        match_descs es (children m) ds && zbeam_eqb (ztrack m b) out && len_matches_total m len
+      end)
+  && (match k_drifts c with
+      | None => false
+      | Some (ds, len) =>
+        let m := Seg (zename t) (zas_drifts ex es) in
+        match_descs es (children m) ds && len_matches_total m len
+      end).
+
 (* class table check: observed (class name, hasattr(probe, "is_active")) pairs against Filter.class_has_is_active *)
 Definition class_table_check (obs : list (string * bool)) : bool :=
   forallb (fun p => match find (fun q => String.eqb (fst q) (fst p)) class_has_is_active with
@@ -216,3 +250,207 @@ Proof. repeat constructor; vm_compute; discriminate. Qed.
 (* whereas the active quadrupole-like element itself, at top level, is kept *)
 Lemma as_drifts_keeps_active : zas_drifts [] [Leaf quad_like] = [Leaf quad_like].
 Proof. reflexivity. Qed.
+
+(** ---------- F28: Segment.length of an empty segment, before and after the repair.
+
+    Before: `reduce(torch.add, [element.length for element in self.elements])` raises TypeError for
+    an empty element list, hence also for every segment that holds an empty sub-segment.  After:
+    `reduce(torch.add, lengths, torch.tensor(0.0))`.  [elen_pinned] / [elen_fixed] transcribe the two
+    (None = raised); [Track.elen], used by all length theorems, is the total sum.  Generic in the
+    leaf and length types; the Z instances are what [c08_check] / [c08_check_len_total] compare with. *)
+Local Close Scope string_scope.
+Section Length.
+Variables (L Len : Type) (llen : L -> Len) (lzero : Len) (ladd : Len -> Len -> Len).
+Notation elem := (elem L).
+Notation elen := (elen llen lzero ladd).
+
+(* torch.add of two lengths, either of which may have raised *)
+Definition oadd (a b : option Len) : option Len :=
+  match a, b with Some x, Some y => Some (ladd x y) | _, _ => None end.
+
+(* the code before the repair: reduce(torch.add, lengths) -- TypeError for the empty list *)
+Fixpoint elen_pinned (e : elem) : option Len :=
+  match e with
+  | Leaf l => Some (llen l)
+  | Seg _ es => match map elen_pinned es with [] => None | x :: r => fold_left oadd r x end
+  end.
+
+(* the repaired code: reduce(torch.add, lengths, torch.tensor(0.0)) *)
+Fixpoint elen_fixed (e : elem) : option Len :=
+  match e with
+  | Leaf l => Some (llen l)
+  | Seg _ es => fold_left oadd (map elen_fixed es) (Some lzero)
+  end.
+
+(* the tree holds an empty segment (itself included) *)
+Fixpoint has_empty (e : elem) : bool :=
+  match e with Leaf _ => false | Seg _ es => match es with [] => true | _ => existsb has_empty es end end.
+
+Lemma fold_oadd_none : forall xs : list (option Len), fold_left oadd xs None = None.
+Proof. induction xs as [|x r IH]; [reflexivity|exact IH]. Qed.
+
+Lemma fold_fixed : forall es : list elem, Forall (fun e => elen_fixed e = Some (elen e)) es ->
+  forall a, fold_left oadd (map elen_fixed es) (Some a) = Some (fold_left (fun a e' => ladd a (elen e')) es a).
+Proof.
+  induction es as [|e r IH]; intros H a; [reflexivity|].
+  inversion H as [|? ? He Hr]; subst. cbn [map fold_left]. rewrite He. cbn [oadd]. apply IH, Hr.
+Qed.
+
+(* the repaired length is total and is the sum of the model, for every tree *)
+Theorem elen_fixed_total : forall e, elen_fixed e = Some (elen e).
+Proof.
+  induction e as [l|n es IH] using elem_ind'; [reflexivity|].
+  cbn [elen_fixed Track.elen]. apply fold_fixed, IH.
+Qed.
+
+Lemma fold_pinned : forall es : list elem,
+  Forall (fun e => elen_pinned e = if has_empty e then None else Some (elen e)) es ->
+  forall a, fold_left oadd (map elen_pinned es) (Some a) =
+            if existsb has_empty es then None else Some (fold_left (fun a e' => ladd a (elen e')) es a).
+Proof.
+  induction es as [|e r IH]; intros H a; [reflexivity|].
+  inversion H as [|? ? He Hr]; subst. cbn [map fold_left existsb]. rewrite He.
+  destruct (has_empty e); cbn [oadd orb]; [apply fold_oadd_none|apply IH, Hr].
+Qed.
+
+Hypothesis ladd_0_l : forall x, ladd lzero x = x.
+
+(* the length before the repair: undefined exactly on the trees that hold an empty segment, the model's sum elsewhere *)
+Theorem elen_pinned_spec : forall e, elen_pinned e = if has_empty e then None else Some (elen e).
+Proof.
+  induction e as [l|n es IH] using elem_ind'; [reflexivity|].
+  destruct es as [|e0 r]; [reflexivity|].
+  inversion IH as [|? ? H0 Hr]; subst.
+  cbn [elen_pinned map]. cbn [has_empty existsb Track.elen fold_left]. rewrite H0.
+  destruct (has_empty e0); cbn [orb]; [apply fold_oadd_none|].
+  rewrite ladd_0_l. apply fold_pinned, Hr.
+Qed.
+
+(* the repair changes nothing where the code returned before *)
+Theorem elen_repair_conservative : forall e x, elen_pinned e = Some x -> elen_fixed e = Some x.
+Proof.
+  intros e x H. rewrite elen_pinned_spec in H. rewrite elen_fixed_total.
+  destruct (has_empty e); [discriminate|exact H].
+Qed.
+End Length.
+
+
+(** the four transformations under the repaired length: defined for EVERY lattice (empty, with empty
+    sub-segments, filtered down to nothing) and equal to the original segment's length *)
+Section F28Ops.
+Variables (M B E L Len : Type) (one : M) (mul : M -> M -> M) (app : M -> B -> B) (en : B -> E).
+Variables (skip : L -> bool) (tmap : L -> E -> M) (ltrack : L -> B -> B) (lname : L -> string).
+Variables (llen : L -> Len) (lzero : Len) (ladd : Len -> Len -> Len).
+Variable mkctm : M -> Len -> string -> L.
+Variables (lmarker lhas_active lactive : L -> bool) (len_anypos len_allzero : Len -> bool).
+Variable mkdrift : Len -> string -> L.
+Hypothesis ladd_0_l : forall x, ladd lzero x = x.
+Hypothesis ladd_0_r : forall x, ladd x lzero = x.
+Hypothesis ladd_assoc : forall x y z, ladd (ladd x y) z = ladd x (ladd y z).
+Hypothesis ctm_len : forall m len nm, llen (mkctm m len nm) = len.
+Hypothesis marker_len : forall l, lmarker l = true -> llen l = lzero.
+Hypothesis drift_len : forall len nm, llen (mkdrift len nm) = len.
+
+Notation lenf := (elen_fixed L Len llen lzero ladd).
+Notation lenp := (elen_pinned L Len llen ladd).
+
+Theorem merged_length_fixed : forall n ex es b,
+  lenf (Seg n (merged one mul app en skip tmap ltrack lname llen lzero ladd mkctm ex es [] b)) = lenf (Seg n es).
+Proof.
+  intros. rewrite !elen_fixed_total. f_equal.
+  apply (@merged_length M B E L Len one mul app en skip tmap ltrack lname llen lzero ladd mkctm
+           ctm_len ladd_0_l ladd_0_r ladd_assoc).
+Qed.
+
+Theorem markers_removed_length_fixed : forall n ex es,
+  lenf (Seg n (markers_removed lname lmarker ex es)) = lenf (Seg n es).
+Proof.
+  intros. rewrite !elen_fixed_total. f_equal.
+  apply (@markers_removed_length L Len lname llen lzero ladd lmarker marker_len ladd_0_l ladd_0_r ladd_assoc).
+Qed.
+
+Theorem zero_length_removed_length_fixed : forall n ex es,
+  (forall x, len_anypos x = false -> x = lzero) ->
+  lenf (Seg n (zero_length_removed lname llen lzero ladd lhas_active lactive len_anypos ex es)) = lenf (Seg n es).
+Proof.
+  intros n ex es H. rewrite !elen_fixed_total. f_equal.
+  apply (@zero_length_removed_length L Len lname llen lzero ladd lhas_active lactive len_anypos
+           ladd_0_l ladd_0_r ladd_assoc n ex es H).
+Qed.
+
+Theorem as_drifts_length_fixed : forall n ex es,
+  lenf (Seg n (as_drifts lname llen lzero ladd lhas_active lactive len_allzero mkdrift ex es)) = lenf (Seg n es).
+Proof.
+  intros. rewrite !elen_fixed_total. f_equal.
+  apply (@as_drifts_length L Len lname llen lzero ladd lhas_active lactive len_allzero mkdrift
+           ladd_0_l ladd_0_r ladd_assoc drift_len).
+Qed.
+
+(* a filter that removes everything: the (empty) result has the repaired length lzero, and so has the original *)
+Theorem all_markers_removed_length_fixed : forall n ex es,
+  markers_removed lname lmarker ex es = [] ->
+  lenf (Seg n (markers_removed lname lmarker ex es)) = Some lzero /\ lenf (Seg n es) = Some lzero.
+Proof.
+  intros n ex es H. rewrite <- (markers_removed_length_fixed n ex es). rewrite H. split; reflexivity.
+Qed.
+
+(* finding F28: before the repair the same lattices have no length -- a lattice of markers loses its
+   length when the markers are removed, and a lattice holding an empty sub-segment never had one *)
+Theorem length_pinned_refuted : forall n (m : L), lmarker m = true ->
+  lenp (Seg n [Leaf m]) = Some (llen m) /\ lenp (Seg n (markers_removed lname lmarker [] [Leaf m])) = None.
+Proof.
+  intros n m Hm. split; [reflexivity|].
+  unfold markers_removed, keep_marker. cbn. rewrite Hm. reflexivity.
+Qed.
+
+Theorem length_pinned_empty_subsegment_refuted : forall n n' (es1 es2 : list (elem L)),
+  lenp (Seg n (es1 ++ Seg n' [] :: es2)%list) = None.
+Proof.
+  intros. rewrite (elen_pinned_spec L Len llen lzero ladd ladd_0_l).
+  assert (H : has_empty L (Seg n (es1 ++ Seg n' [] :: es2)%list) = true).
+  { cbn [has_empty]. destruct (es1 ++ Seg n' [] :: es2)%list eqn:Heq; [reflexivity|]. rewrite <- Heq.
+    rewrite existsb_app. cbn. apply orb_true_r. }
+  rewrite H. reflexivity.
+Qed.
+End F28Ops.
+
+(** the Z instance: the two length functions are what the two case checkers compare with *)
+Definition zlen_pinned : zelem -> option Z := elen_pinned zleaf Z zlen Z.add.
+Definition zlen_fixed : zelem -> option Z := elen_fixed zleaf Z zlen 0 Z.add.
+Definition optz_eqb (a b : option Z) : bool :=
+  match a, b with Some x, Some y => x =? y | None, None => true | _, _ => false end.
+
+Lemma has_empty_seg_eq : forall e, has_empty_seg e = has_empty zleaf e.
+Proof. reflexivity. Qed.
+
+Lemma len_matches_spec : forall e l, len_matches e l = optz_eqb (zlen_pinned e) l.
+Proof.
+  intros e l. unfold len_matches, zlen_pinned. rewrite (elen_pinned_spec zleaf Z zlen 0 Z.add (fun x => eq_refl)).
+  rewrite has_empty_seg_eq. destruct (has_empty zleaf e), l; reflexivity.
+Qed.
+
+Lemma len_matches_total_spec : forall e l, len_matches_total e l = optz_eqb (zlen_fixed e) l.
+Proof.
+  intros e l. unfold len_matches_total, zlen_fixed. rewrite elen_fixed_total. destruct l; reflexivity.
+Qed.
+
+(* the pinned filters raise iff a top-level element has no (pinned) length *)
+Lemma filter_raises_spec : forall es,
+  filter_raises es = existsb (fun e => match zlen_pinned e with None => true | Some _ => false end) es.
+Proof.
+  intros es. unfold filter_raises. induction es as [|e r IH]; [reflexivity|]. cbn [existsb]. rewrite IH. f_equal.
+  unfold zlen_pinned. rewrite (elen_pinned_spec zleaf Z zlen 0 Z.add (fun x => eq_refl)), has_empty_seg_eq.
+  destruct (has_empty zleaf e); reflexivity.
+Qed.
+
+(* the repaired length is preserved by merging and by the drift replacement, for every integer lattice *)
+Theorem zlengths_fixed : forall n ex es b,
+  zlen_fixed (Seg n (zmerged ex es [] b)) = zlen_fixed (Seg n es) /\
+  zlen_fixed (Seg n (zas_drifts ex es)) = zlen_fixed (Seg n es).
+Proof.
+  intros. split.
+  - apply (@merged_length_fixed _ _ _ _ _ zI zmmul zapp zen zskip ztmap zltrack zname zlen 0 Z.add zmkctm);
+      first [reflexivity | intros; lia].
+  - apply (@as_drifts_length_fixed zleaf Z zname zlen 0 Z.add zhas_active zactive zallzero zmkdrift);
+      first [reflexivity | intros; lia].
+Qed.
